@@ -663,6 +663,49 @@ def b_grid(S):
     return out
 
 
+def _find_compare(source, qual, contains):
+    tree = ast.parse(source)
+    fn = find_func(tree, qual)
+    hits = [n for n in ast.walk(fn) if isinstance(n, (ast.Compare, ast.BoolOp)) and all(c in ast.unparse(n) for c in contains)]
+    # outermost matches only
+    outer = [h for h in hits if not any(h is not o and h in list(ast.walk(o)) for o in hits)]
+    if len(outer) != 1:
+        raise Untranslatable(f"{qual}: expected one comparison containing {contains}, found {len(outer)}")
+    return outer[0]
+
+
+def b_windows(S):
+    out = ""
+    # UNDERLAPPING / OVERLAPPING SNAP window
+    n = _find_compare(S[TVALS], "UnderlappingSnapValidator.validation_method", ["trace.distance(endpoint)", "snap_threshold_error_multiplier"])
+    out += translate_expression(S[TVALS], n, "underlap_window", {"d": "Rat", "snap_threshold": "Rat", "snap_threshold_error_multiplier": "Rat"}, "Bool",
+                                {"trace.distance(endpoint)": "d"}, types={"trace.distance(endpoint)": "Rat"}, default_num="Rat")
+    n = _find_compare(S[TVALS], "UnderlappingSnapValidator.validation_method", ["trace_candidates.distance(endpoint)"])
+    out += "\n" + translate_expression(S[TVALS], n, "well_snapped", {"d": "Rat", "snap_threshold": "Rat"}, "Bool",
+                                        {"trace_candidates.distance(endpoint)": "d"}, types={"trace_candidates.distance(endpoint)": "Rat"}, default_num="Rat")
+    # TRACE UNDERLAPS TARGET AREA window
+    n = _find_compare(S[TVALS], "TargetAreaSnapValidator.validation_method", ["endpoint.distance(area_polygon.boundary)"])
+    out += "\n" + translate_expression(S[TVALS], n, "area_window",
+                                        {"d": "Rat", "snap_threshold": "Rat", "snap_threshold_error_multiplier": "Rat", "area_edge_snap_multiplier": "Rat"}, "Bool",
+                                        {"endpoint.distance(area_polygon.boundary)": "d"}, types={"endpoint.distance(area_polygon.boundary)": "Rat"}, default_num="Rat")
+    # snapping guard of snap_trace_to_another
+    n = _find_compare(S[BAN], "snap_trace_to_another", ["ep.distance(another)", "ep.intersects(another)"])
+    out += "\n" + translate_expression(S[BAN], n, "snap_guard", {"d": "Rat", "snap_threshold": "Rat", "on": "Bool"}, "Bool",
+                                        {"ep.distance(another)": "d", "ep.intersects(another)": "on"},
+                                        types={"ep.distance(another)": "Rat", "ep.intersects(another)": "Bool"}, default_num="Rat")
+    # boundary proximity (E-node test / no insertion of boundary ends)
+    n = _find_compare(S[BAN], "is_endpoint_close_to_boundary", ["endpoint.distance(area.boundary)"])
+    out += "\n" + translate_expression(S[BAN], n, "boundary_close", {"d": "Rat", "snap_threshold": "Rat"}, "Bool",
+                                        {"endpoint.distance(area.boundary)": "d"}, types={"endpoint.distance(area.boundary)": "Rat"}, default_num="Rat")
+    n = _find_compare(S[BAN], "node_identity", ["endpoint.distance(area.boundary)"])
+    out += "\n" + translate_expression(S[BAN], n, "node_boundary_close", {"d": "Rat", "snap_threshold": "Rat"}, "Bool",
+                                        {"endpoint.distance(area.boundary)": "d"}, types={"endpoint.distance(area.boundary)": "Rat"}, default_num="Rat")
+    n = _find_compare(S[BAN], "node_identity", ["candidate.distance(endpoint)"])
+    out += "\n" + translate_expression(S[BAN], n, "node_coincident", {"d": "Rat", "snap_threshold": "Rat"}, "Bool",
+                                        {"candidate.distance(endpoint)": "d"}, types={"candidate.distance(endpoint)": "Rat"}, default_num="Rat")
+    return out
+
+
 def b_cli(S):
     tree = ast.parse(S[CLI])
 
@@ -750,6 +793,7 @@ ITEMS: List[Item] = [
     Item("Grid", GRID, ["C18"], b_grid),
     Item("IndexMargins", GENERAL, ["C16"], b_index_margins, extra_modules=[PROX]),
     Item("Cli", CLI, ["C19"], b_cli),
+    Item("Windows", TVALS, ["C10", "C03", "C06"], b_windows, extra_modules=[BAN]),
     Item("RandomRadius", RSAMP, ["C20"], b_random_radius, extra_modules=[GENERAL]),
     Item("AggregateDispatch", SUBS, ["C20"], b_aggregate_dispatch),
 ]
